@@ -97,7 +97,7 @@ Definition ext_stable_full (t : ext_task) (FI : fint) (M : pint) (P : program) :
          (ph_program FI (task_placeholders t) P)
          (input_facts (restrict (ext_voc t P) M) (task_inputs t)).
 
-(* every output predicate declared in the user guide occurs in the program.  Until /repo <COMMIT-F17>
+(* every output predicate declared in the user guide occurs in the program.  Until /repo 70e6ace
    this was a class premise of the theorems below (completion.rs completes only predicates that
    occur in the theory, so a missing output predicate got NO completed definition on that side:
    finding F17).  Since the repair `theory_translate` appends `forall X (p(X) <-> #false)` for
